@@ -73,22 +73,24 @@ type faultSpec struct {
 }
 
 type scenario struct {
-	Ops      []clientOp `json:"ops"`
-	Fault    *faultSpec `json:"fault"`
-	Version  int64      `json:"version"`
-	HelloBad string     `json:"hello_bad"` // "" | version | schema | garbage
-	Script   []scriptOp `json:"script"`
-	CutAt    int        `json:"cut_at"` // > 0: the byte stream of the script is cut at this offset, then EOF
-	Mode     string     `json:"mode"`
-	Cap      int        `json:"cap"`
-	Frag     bool       `json:"frag"`
-	Runs     []runSpec  `json:"runs"`
-	Schedule []action   `json:"schedule"`
-	Work     workload   `json:"workload"`
-	DelayKey string     `json:"delay_key"`
-	DelayNth int        `json:"delay_nth"`
-	Seed     int64      `json:"seed"`
-	ID       string     `json:"id"`
+	Ops       []clientOp `json:"ops"`
+	Fault     *faultSpec `json:"fault"`
+	Version   int64      `json:"version"`
+	HelloBad  string     `json:"hello_bad"` // "" | version | schema | garbage
+	Script    []scriptOp `json:"script"`
+	CutAt     int        `json:"cut_at"` // > 0: the byte stream of the script is cut at this offset, then EOF
+	Mode      string     `json:"mode"`
+	Cap       int        `json:"cap"`
+	Frag      bool       `json:"frag"`
+	Runs      []runSpec  `json:"runs"`
+	Schedule  []action   `json:"schedule"`
+	Work      workload   `json:"workload"`
+	DelayKey  string     `json:"delay_key"`
+	DelayNth  int        `json:"delay_nth"`
+	Delay2Key string     `json:"delay2_key"` // optional second held gate occurrence (pairs of delays)
+	Delay2Nth int        `json:"delay2_nth"`
+	Seed      int64      `json:"seed"`
+	ID        string     `json:"id"`
 }
 
 type execResult struct {
@@ -742,13 +744,16 @@ func runScenario(sc scenario) (res *result) {
 		w.s.Reset()
 		if sc.Mode == "delay" {
 			w.s.SetDelay(sc.DelayKey, sc.DelayNth)
+			if sc.Delay2Key != "" {
+				w.s.SetDelay(sc.Delay2Key, sc.Delay2Nth)
+			}
 			w.s.SetMode(sched.Delay)
 			stop := make(chan struct{})
-			relDone := make(chan bool, 1)
+			relDone := make(chan int, 1)
 			go func() { relDone <- w.s.ReleaseDelayed(stop) }()
 			defer func() {
 				close(stop)
-				res.DelayHit = <-relDone
+				res.DelayHit = <-relDone > 0
 			}()
 		}
 		wantClose = sc.Work.Close == "end" || sc.Work.Close == "race"
